@@ -14,7 +14,8 @@ import vlib
 
 LEVEL = "proof"
 MODULE = "Sqfs.Props.C07"
-REQUIRED = ["Sqfs.C07.resolve_links_terminates", "Sqfs.C07.resolve_ok_targets"]
+REQUIRED = ["Sqfs.C07.resolve_links_terminates", "Sqfs.C07.resolve_ok_targets", "Sqfs.C07.resolve_links_exact",
+            "Sqfs.C07.resolve_tree_exact", "Sqfs.C07.expected_unique", "Sqfs.C07.chain_fates_exclusive", "Sqfs.C07.specClass_sound"]
 WITNESS_MODULE = "Sqfs.Witness.C07"
 
 KEY_D12 = "D12:resolve_link:cycle-not-through-start"
@@ -163,6 +164,39 @@ def hl_random(rng, count, maxn):
     return out
 
 
+def hl_spec_verdict(line, impl, spec):
+    """judge the implementation's answer against the specification's classification (`hlspec` of the driver).
+    Returns a list of violated clauses (empty = the answer is acceptable to the specification)."""
+    if not spec.startswith("spec"):
+        return []                      # the tree could not even be built according to the model: no link clause applies
+    cls = [t.split("=", 1) for t in spec.split()[1:]]           # LIFO order = order of resolution
+    if impl == "timeout":
+        return ["terminates"]
+    firstbad = next(((p, c) for p, c in cls if not (c.startswith("F:") and c.endswith(":o"))), None)
+    if impl.startswith("ok"):
+        bad = []
+        if firstbad:
+            bad.append("success although link %s is %s" % firstbad)
+        ents = line.split()[1:]
+        vals = impl.split()[2:]
+        want = {p: c.split(":")[1] for p, c in cls if c.startswith("F:")}
+        for e, v in zip(ents, vals):
+            k, n, _ = e.split(":")
+            if k == "l" and v.startswith("L") and want.get(n) is not None and v[1:] != want[n]:
+                bad.append("link %s resolved to %s, its chain ends at %s" % (n, v[1:], want[n]))
+        return bad
+    if impl.startswith("err "):
+        _, p, e = impl.split()
+        if not firstbad:
+            return ["failure although every link has a proper end"]
+        if p != firstbad[0]:
+            return ["failure attributed to %s, first unresolvable link is %s" % (p, firstbad[0])]
+        c = firstbad[1]
+        want = "EMLINK" if c == "C" else ("EPERM" if c.startswith("F:") else c.split(":")[1])
+        return [] if e == want else ["errno %s, specification says %s (%s)" % (e, want, c)]
+    return []
+
+
 def check_hardlinks(ctx, stats):
     exe = ctx.cc("h_c07_hl", HL_SOURCES, flags=["-DSPIN_MS=10"])
     corpus = []
@@ -206,9 +240,22 @@ def check_hardlinks(ctx, stats):
                 shown += 1
                 ctx.violation("hl-timeout:" + vlib.sha(l)[:12], "fstree_resolve_hard_links did not return within 10 ms CPU on: %s" % l,
                               {"unit": "hl", "line": l, "impl": "timeout", "model_shipped": c})
-    for l, a, b in mism[:5]:
-        ctx.violation("hl-corr:" + vlib.sha(l)[:12], "hard-link resolution: real code answers %r, model %r on %s" % (a, b, l),
-                      {"unit": "hl", "line": l, "impl": a, "model": b}, found_input=False)
+    if mism:
+        specs = ctx.driver(["c07"], "\n".join("hlspec " + l[3:] for l, _, _ in mism[:200]) + "\n")
+        shown = 0
+        for (l, a, b), sp in zip(mism[:200], specs):
+            bad = hl_spec_verdict(l, a, sp)
+            if shown >= 5:
+                break
+            shown += 1
+            if bad:
+                ctx.violation("hl-spec:" + vlib.sha(l)[:12], "hard-link resolution violates the specification (%s): real code answers %r, "
+                              "model %r, spec %r on %s" % ("; ".join(bad), a, b, sp, l),
+                              {"unit": "hl", "line": l, "impl": a, "model": b, "spec": sp, "clauses": bad})
+            else:
+                ctx.violation("hl-corr:" + vlib.sha(l)[:12], "hard-link resolution: real code answers %r, model %r on %s (no clause of the "
+                              "specification is violated by the answer)" % (a, b, l),
+                              {"unit": "hl", "line": l, "impl": a, "model": b, "spec": sp}, found_input=False)
     stats["hl"] = {"evaluations": len(lines), "exhaustive_graphs_le4_names": nexh, "random": len(rnd), "corpus": len(corpus),
                    "model_result_histogram": hist, "impl_timeouts": len(spins), "mismatches": len(mism),
                    "samples": [{"line": lines[i], "impl": impl[i], "model": model[i]} for i in (0, nexh // 2, len(lines) - 1)]}
@@ -255,9 +302,13 @@ def replay(ctx, path):
         exe = ctx.cc("h_c07_hl", HL_SOURCES, flags=["-DSPIN_MS=10"])
         impl, crash = run_harness(ctx, exe, [rp["line"]], timeout=60)
         model = ctx.driver(["c07"], rp["line"] + "\n")
+        spec = ctx.driver(["c07"], "hlspec " + rp["line"][3:] + "\n")
         print("line  :", rp["line"])
         print("impl  :", impl, "crash:", crash)
         print("model :", model)
-        return 1 if crash or impl != model else 0
+        print("spec  :", spec)
+        bad = hl_spec_verdict(rp["line"], impl[0], spec[0]) if impl else ["crash"]
+        print("clauses violated:", bad)
+        return 1 if crash or bad or impl != model else 0
     print("replay file names a broken obligation, no input to replay:", json.dumps(rp)[:500])
     return 1
